@@ -717,8 +717,12 @@ struct Digit {
                         const Char_T digit = content[offset];
 
                         if ((digit >= DigitUtils::DigitChar::Zero) && (digit <= DigitUtils::DigitChar::Nine)) {
-                            exponent *= SizeT32{10};
-                            exponent += SizeT32(digit - DigitUtils::DigitChar::Zero);
+                            // Far beyond any exponent that digits can compensate: stop counting before it wraps.
+                            if (exponent < SizeT32{400000000}) {
+                                exponent *= SizeT32{10};
+                                exponent += SizeT32(digit - DigitUtils::DigitChar::Zero);
+                            }
+
                             ++offset;
                             continue;
                         }
